@@ -612,9 +612,9 @@ def seq_getitem(E, sq, idx):
     E.trace.append(('probe', sq.name, i))
     g = sq.ghost
     if E.branch(i < 0, 'seq negative index'):
-        if g is not None:
+        if g is not None and not ('neg_probe' in g and g['neg_probe'] is None):
             g.setdefault('neg_probe', []).append(i)
-        if sq.kind == 'lazy':
+        if sq.kind == 'lazy' or (sq.kind == 'any' and E.decide(2, 'seq kind lazy') == 1):
             _raise('IndexError', 'negative indexes are not supported')
         if E.branch(i + sq.length < 0, 'seq neg out of range'):
             _raise('IndexError', 'index out of range')
@@ -625,7 +625,7 @@ def seq_getitem(E, sq, idx):
         g['pulled'] = z3.simplify(z3.If(i + 1 > old, z3.If(i + 1 > sq.length, sq.length, i + 1), old))
         g['maxidx'] = z3.simplify(z3.If(i > g['maxidx'], i, g['maxidx']))
     if not E.branch(i < sq.length, 'seq index in range'):
-        if g is not None:
+        if g is not None and not ('failed_probe' in g and g['failed_probe'] is None and g.get('havoced_sticky')):
             g['failed_probe'] = True
         _raise('IndexError', 'index out of range')
     return E.seq_elem(sq, i)
